@@ -610,9 +610,19 @@ where
     ) -> Result<(Buf::Output, SocketAddr, usize), io::Error> {
         let mut msg = self.buf.create_buf();
         let mut buf = ReadBuf::new(msg.as_mut());
-        self.sock
-            .try_recv_buf_from(&mut buf)
-            .map(|(bytes_read, addr)| (msg, addr, bytes_read))
+        let (bytes_read, addr) = self.sock.try_recv_buf_from(&mut buf)?;
+
+        // Only the bytes that were actually received are the message. The
+        // rest of the receive buffer must not be parsed as if the client
+        // had sent it.
+        if bytes_read < msg.as_ref().len() {
+            let mut sized = self.buf.create_sized(bytes_read);
+            sized.as_mut()[..bytes_read]
+                .copy_from_slice(&msg.as_ref()[..bytes_read]);
+            msg = sized;
+        }
+
+        Ok((msg, addr, bytes_read))
     }
 }
 
